@@ -83,6 +83,8 @@ pub enum PlanOp {
     Next,
     NextBack,
     NthBack(usize),
+    /// `Iterator::nth`
+    Nth(usize),
     Len,
 }
 
@@ -98,6 +100,18 @@ pub fn parse_plan(text: &str) -> Option<Vec<PlanOp>> {
             b'n' => plan.push(PlanOp::Next),
             b'b' => plan.push(PlanOp::NextBack),
             b'l' => plan.push(PlanOp::Len),
+            b's' => {
+                let start = i + 1;
+                let mut end = start;
+                while end < bytes.len() && bytes[end].is_ascii_digit() {
+                    end += 1;
+                }
+                if end == start {
+                    return None;
+                }
+                plan.push(PlanOp::Nth(text[start..end].parse().ok()?));
+                i = end - 1;
+            }
             b't' => {
                 let start = i + 1;
                 let mut end = start;
@@ -136,6 +150,7 @@ where
             PlanOp::Next => Step::Item(it.next()),
             PlanOp::NextBack => Step::Item(it.next_back()),
             PlanOp::NthBack(n) => Step::Item(it.nth_back(*n)),
+            PlanOp::Nth(n) => Step::Item(it.nth(*n)),
             PlanOp::Len => Step::Len(it.len()),
         });
         match step {
